@@ -16,7 +16,7 @@ RULE = ("one case = a lattice (decimal spacing and anchor, extent 1..12 x 1..12,
         "collection, global 2/1 deg; thorough: global 0.5, NZ x2): every bounding-box node with 7 jitters. Non-trivial = lattice with "
         ">= 2 cells (its probe set then contains points exactly on an interior cell edge and points that must be rejected); "
         "distinct = canonical JSON of the lattice.")
-ASSUMPTIONS = ["cell i is [lon_i, lon_(i+1)) x [lat_i, lat_(i+1)) with lon_i the origin floats handed to the library; last column/row ends at origin + dh (exact)",
+ASSUMPTIONS = ["cell i is [lon_i, lon_(i+1)) x [lat_i, lat_(i+1)) with lon_i the origin floats handed to the library; last column/row ends at origin + dh (exact); on a decimal lattice the float of the decimal outer boundary lon0 + (i0+nx)*dh is itself outside (a boundary coordinate belongs to the cell it opens, and the outer one opens none)",
                "a point within slack = 4*eps*(k+2)*(|e0|+|e1|+|v|) below a boundary may be attributed to either adjacent cell (documented round-off tolerance)",
                "mask flags only take effect through the constructor's mask= argument (flag 1 = valid)",
                "global_region probed at dh in {2,1} (thorough 0.5); dh=0.1 needs 6.5M Polygon objects; California/Italy *testing* regions need emptied XML files"]
